@@ -56,7 +56,7 @@ func (f *Oneplus) Call(s *slip.Scope, args slip.List, depth int) (result slip.Ob
 		return (*slip.LongFloat)(z.Add((*big.Float)(ta), big.NewFloat(1.0)))
 	case *slip.Bignum:
 		var z big.Int
-		return (*slip.Bignum)(z.Add((*big.Int)(ta), big.NewInt(1)))
+		return reduceInteger(z.Add((*big.Int)(ta), big.NewInt(1)))
 	case *slip.Ratio:
 		var z big.Int
 		den := (*big.Rat)(ta).Denom()
